@@ -26,7 +26,7 @@ func init() {
 	lib.Register(&lib.Prop{ID: "C05", Level: "fault_enumeration", Run: run})
 }
 
-var policies = []string{"random", "least_conn", "round_robin", "ip_hash", "uri_hash", "first", "header X-Key", "header X-Key X-K2"}
+var policies = []string{"random", "least_conn", "round_robin", "ip_hash", "uri_hash", "first", "header X-Key", "header X-Key X-K2", "header x-key", "header X-KEY x-k2"}
 
 // host states
 const (
